@@ -198,6 +198,34 @@ def random_hist(rng, long=False):
     return H(steps, lazy=lazy, udp=rng.random() < 0.8, init=rng.choice(["ok", "ok", "ok", "ok", "hsauth"]))
 
 
+FAILS = ("cfgerr", "newerr", "hsconn", "hsauth")   # configFunc error / ConnFactory.New error / TLS failure / auth rejection
+
+
+def scripted_after_failure(rng):
+    """A connection attempt fails (every kind: config error, dial error, handshake error, auth failure); the NEXT thing that
+    happens to the same reconnectable client is a TCP() / a UDP() / a Close().  reconnect.go: a failed attempt leaves no client
+    behind, so the next call makes an attempt of its own (which may succeed: count goes on from where it was) and Close after a
+    failed attempt has nothing to close.  The attempt that fails is the first use of a lazy client or the reconnect after a loss
+    that has been noticed (eager start, kill, a call that returns ClosedError); one or two failures in a row."""
+    cs = []
+    for f in FAILS:
+        for nxt in ("tcp", "udp", "close"):
+            step = CLOSE if nxt == "close" else call(0, kind=nxt)
+            twice = rng.random() < 0.4
+            pre = []
+            lazy = rng.random() < 0.5
+            if not lazy:
+                pre = [call(0), kill(rng.choice(["sock", "srv"])), call(0)]
+            fl = [f, rng.choice(FAILS)] if twice else [f]
+            steps = pre + [{"op": "fault", "f": fl}] + [call(0, kind=rng.choice(["tcp", "udp"])) for _ in fl[:-1]] + [call(0), step]
+            # ... and afterwards: another goroutine, the other kind of call, Close (again)
+            steps += [call(1, kind="udp" if nxt == "tcp" else "tcp"), call(0), CLOSE, call(rng.randrange(NG), kind=rng.choice(["tcp", "udp"]))]
+            cs.append(H(steps, lazy=lazy, udp=True))
+    # the failing attempt is the last thing before Close, on a client that never had a connection, and Close twice
+    cs.append(H([{"op": "fault", "f": [rng.choice(FAILS[1:])]}, call(0, kind="udp"), CLOSE, CLOSE, call(1)]))
+    return cs
+
+
 def gen(rng, tier):
     cases = [{"k": "class"}] + scripted(rng)
     nrand = 10 if tier == "quick" else 700
@@ -207,6 +235,8 @@ def gen(rng, tier):
     cases += scripted_held(rng)
     for _ in range(8 if tier == "quick" else 300):
         cases.append(random_held(rng))
+    # (again appended last: the stream above is unchanged for a given seed)
+    cases += scripted_after_failure(rng)
     return cases
 
 
@@ -244,6 +274,9 @@ def obs_list(o):
     while evs[i]["e"] != "initend":
         init_evs.append(evs[i])
         i += 1
+    if evs[i].get("r") == "panic":
+        # the constructor panicked: nothing the model could say about this log
+        return out
     okinit = evs[i].get("r") == "ok"
     i += 1
     out.append("RO (OInit %s [%s] %s)" % ("true" if lazy else "false", "; ".join(ev_term(e) for e in init_evs), "true" if okinit else "false"))
@@ -252,13 +285,16 @@ def obs_list(o):
     for j, e in enumerate(rest):
         k = e["e"]
         by = e.get("by", -1)
+        if e.get("r") == "panic":
+            # a call (TCP / UDP / Close) ended in a panic: the log is cut here (to_coq wraps it in CPanic)
+            break
         if k in SECTION:
             out.append("RE %d (%s)" % (by if by >= 0 else 99, ev_term(e)))
         elif k == "start":
             inflight[e.get("g", 0)] = e.get("n", 0)
             # pruning hint for the acceptor: what this call will return (checked again at its ORet)
             nxt = next((x for x in rest[j + 1:] if x["e"] == "ret" and x.get("g", 0) == e.get("g", 0)), None)
-            out.append("RO (OStart %d %s)" % (e.get("g", 0), RET[nxt["r"]] if nxt else "TOk"))
+            out.append("RO (OStart %d %s)" % (e.get("g", 0), RET.get(nxt["r"], "TOk") if nxt else "TOk"))
         elif k == "req":
             # logged by the server's goroutine: it can trail the return of a call whose connection was closed under it
             # (Close racing with a request in flight); only a request seen while the call is in flight orders anything
@@ -282,8 +318,16 @@ def obs_list(o):
 def to_coq(c, o):
     if c["k"] == "class":
         return "CClass"
+    if o.get("skipped"):
+        return None
+    if o.get("died"):
+        # the process died under this history: there is no log (the LTS has no action that ends the process)
+        return "CPanic []"
     if not o.get("evs"):
         return "CRaw []"
+    if o.get("panicked") or any(e.get("r") == "panic" for e in o["evs"]):
+        # every call of the LTS ends in a Ret with one of the six return classes: a call that panics matches no run
+        return "CPanic [" + "; ".join(obs_list(o)) + "]"
     return "CRaw [" + "; ".join(obs_list(o)) + "]"
 
 
@@ -309,6 +353,22 @@ def features(c, o):
         f.add("parked")
     if any(e["e"] == "hold" for e in evs):
         f.add("held")
+    if o.get("panicked") or o.get("died"):
+        f.add("panicked")
+    # the class of scripted_after_failure, recognised in what really happened: a call came back with the error of a failed
+    # connection attempt and the next thing started on the client is a TCP() / UDP() / Close()
+    failed = False
+    for e in evs:
+        if e["e"] == "start":
+            if failed:
+                f.add("fail-then-" + (e.get("k") or "tcp"))
+            failed = False
+        elif e["e"] == "closebegin":
+            if failed:
+                f.add("fail-then-close")
+            failed = False
+        elif e["e"] == "ret" and e.get("r") in ("cfgerr", "newerr", "hserr"):
+            failed = True
     return f
 
 
@@ -330,7 +390,7 @@ def fingerprint(c, o):
     why = o.get("why") or ""
     if "stream limit reached on a live connection was reported as ClosedError" in why:
         return "stream-limit-classified-closed"
-    if "harness" in why:
+    if "harness" in why or "call panicked" in why:
         return None
     if "census:" in why:
         return "socket-census"
@@ -364,10 +424,164 @@ def search(ctx, disagreeing):
     return found
 
 
+# ---------------------------------------------------------------- crash-safe run of the Go harness
+
+def _panic_line(log):
+    import re
+    m = re.search(r"^(panic: .*|fatal error: .*|SIGSEGV.*|signal: .*)$", log or "", re.M)
+    if m:
+        return m.group(1).strip()[:300]
+    return "TIMEOUT" if (log or "").startswith("TIMEOUT") else "go test died without a panic line"
+
+
+def _crashsafe(orig):
+    """common.run_go_cases for the C16 harness.  The harness writes one record per history as soon as the history is finished
+    (any order, each carrying its case index `i`) and appends the index of a history to <out>.started before it starts.  Every
+    call of a history runs under recover() there, so a panicking call is an ordinary record with ok=false.  If the test process
+    dies all the same (a panic on a goroutine of the code under test, a fatal error, a deadlock that runs into the go test
+    timeout) the records are incomplete: the histories that were in flight are then run again in a process of their own with
+    ONE worker, so that the history under which the process dies is named by the marker file, and each named history is
+    confirmed by a run on its own.  It becomes a failing record (`died`, why = 'harness process died: <first panic line>') = a
+    concrete replay.  What had not started yet is run normally again.  The number of extra go test runs is bounded; histories
+    left over when the bound is hit (the tree is failing with concrete replays by then) are marked `skipped`."""
+    import os
+
+    def batch(ctx, gospec, cases, idxs, tag, timeout, race, workers=None):
+        mark = ctx.path("out_%s.jsonl.started" % tag)
+        if os.path.exists(mark):
+            os.remove(mark)
+        old = os.environ.get("VERIF_C16_WORKERS")
+        if workers is not None:
+            os.environ["VERIF_C16_WORKERS"] = str(workers)
+        try:
+            ok, outs, params, log = orig(ctx, gospec, [cases[i] for i in idxs], tag=tag, timeout=timeout, race=race)
+        finally:
+            if workers is not None:
+                if old is None:
+                    os.environ.pop("VERIF_C16_WORKERS", None)
+                else:
+                    os.environ["VERIF_C16_WORKERS"] = old
+        done = {}
+        for o in outs:
+            j = o.get("i", -1)
+            if isinstance(j, int) and 0 <= j < len(idxs):
+                o = dict(o)
+                o["i"] = idxs[j]
+                done[idxs[j]] = o
+        started = []
+        if os.path.exists(mark):
+            for ln in open(mark).read().split():
+                if ln.isdigit() and int(ln) < len(idxs):
+                    started.append(idxs[int(ln)])
+        inflight = [i for i in started if i not in done]
+        rest = [i for i in idxs if i not in done and i not in inflight]
+        # "died": the test binary was built and got as far as the cases (params are written first), and records are missing
+        built = params is not None and "[build failed]" not in log and "[setup failed]" not in log
+        died = built and len(done) < len(idxs)
+        return {"ok": ok, "done": done, "inflight": inflight, "rest": rest, "died": died, "params": params, "log": log}
+
+    def f(ctx, gospec, cases, tag="main", timeout=900, race=False):
+        n = len(cases)
+        full, crashed, skipped = {}, {}, []
+        budget = [14 if ctx.tier == "quick" else 60]   # extra go test runs
+        one_timeout = 150 if not race else 400
+
+        def run(idxs, t, to, workers=None, extra=True):
+            if extra:
+                budget[0] -= 1
+            return batch(ctx, gospec, cases, idxs, t, to, race, workers)
+
+        first = run(list(range(n)), tag, timeout, extra=False)
+        params, log = first["params"], first["log"]
+        full.update(first["done"])
+        if first["died"] and (log.startswith("TIMEOUT") or "panic: test timed out" in log):
+            # a hang is not located here (every history has its own watchdogs): reported as a broken run
+            return False, [], params, log
+        if not first["died"]:
+            if first["ok"]:
+                return True, [full[i] for i in range(n)], params, log
+            return False, ([full[i] for i in range(n)] if len(full) == n else []), params, log
+        ctx.say("C16 harness process died (%s) with %d of %d records written; %d histories in flight: locating the one that kills it"
+                % (_panic_line(log), len(first["done"]), n, len(first["inflight"])))
+        r = first
+        rnd = 0
+        while True:
+            # 1. the histories that were in flight, one at a time in one process: the marker names the one under which it dies
+            seq = list(r["inflight"])
+            if not seq:
+                return False, [], params, log       # nothing was in flight: no history to name (tie broken, no concrete input)
+            while seq and budget[0] > 0:
+                q = run(seq, "%s_seq%d" % (tag, rnd), one_timeout * 2, workers=1)
+                rnd += 1
+                full.update(q["done"])
+                if not q["died"]:
+                    if len(q["done"]) < len(seq):
+                        return False, [], params, q["log"]
+                    seq = []
+                    break
+                if not q["inflight"]:
+                    return False, [], params, q["log"]
+                # 2. confirm on its own (a goroutine left behind by the history before it could have been the one)
+                j = q["inflight"][0]
+                pos = seq.index(j)
+                hit = None
+                for t in [j] + ([seq[pos - 1]] if pos > 0 else []):
+                    if budget[0] <= 0:
+                        break
+                    c1 = run([t], "%s_one%d" % (tag, rnd), one_timeout, workers=1)
+                    rnd += 1
+                    if c1["died"]:
+                        hit = (t, c1["log"])
+                        break
+                    full.update(c1["done"])
+                if hit is None:
+                    # dies in company only: the history in flight is the best that can be named
+                    hit = (j, q["log"])
+                    ctx.say("history %d kills the process only in sequence with its predecessors" % j)
+                crashed[hit[0]] = hit[1]
+                full.pop(hit[0], None)
+                seq = [i for i in seq if i not in full and i not in crashed]
+            if not crashed:
+                return False, [], params, log
+            later = [i for i in seq + r["rest"] if i not in full and i not in crashed]
+            if not later:
+                break
+            if budget[0] <= 0:
+                skipped = later
+                break
+            # 3. what had not started yet: a normal run again
+            r = run(later, "%s_rest%d" % (tag, rnd), timeout)
+            rnd += 1
+            full.update(r["done"])
+            if not r["died"]:
+                if len(r["done"]) < len(later):
+                    return False, [], params, r["log"]
+                break
+        for i in skipped:
+            if i not in full:
+                full[i] = {"i": i, "ok": True, "why": "", "skipped": True, "evs": []}
+        for i, lg in crashed.items():
+            full[i] = {"i": i, "ok": False, "died": True, "evs": [], "why": "harness process died: " + _panic_line(lg),
+                       "crash_log": lg[-2500:]}
+        if len(full) < n:
+            return False, [], params, log
+        ctx.say("process death located: histories %s; %d histories not run again" % (sorted(crashed), len(skipped)))
+        return True, [full[i] for i in range(n)], params, log
+    return f
+
+
 def run(ctx):
-    import random
     import sys
-    mod = sys.modules[__name__]
+    orig = common.run_go_cases
+    common.run_go_cases = _crashsafe(orig)
+    try:
+        return _run(ctx, sys.modules[__name__])
+    finally:
+        common.run_go_cases = orig
+
+
+def _run(ctx, mod):
+    import random
     if ctx.tier != "thorough":
         return common.run_case_check(ctx, mod)
     # thorough: additionally run the quick histories (incl. the free-running bursts) under the race detector
@@ -401,8 +615,10 @@ def replay(ctx, path):
     if not c:
         print("replay file names a broken obligation/correspondence, no concrete input:", r["what"])
         return 1
-    ok, outs, _, log = common.run_go_cases(ctx, GO, [c], tag="replay")
+    ok, outs, _, log = _crashsafe(common.run_go_cases)(ctx, GO, [c], tag="replay")
     print(json.dumps(outs, indent=1))
+    if not outs:
+        print(log[-3000:])
     return 0 if outs and outs[0].get("ok") else 1
 
 
